@@ -24,6 +24,7 @@ import (
 //                   outstanding requests and, as a stale already-queued expiry, for the last retired one
 //   Rsp(i, v)       response to the i-th request: v=0 right peer, matching SEID; v=1 right peer, SEID 0;
 //                   v=2 same sequence number from the wrong peer; v=3 right peer, non-outstanding sequence;
+//                   v=4 same sequence number from the right IP address but another UDP port (peer A2);
 //                   for the last retired request v=0 again (a duplicated response)
 // Requests are identified by (peer address, wire sequence number) read from the transaction objects' fields.
 
@@ -116,9 +117,12 @@ func (c *c09) Enabled() []seqx.Event {
 		x := seqx.Ev("Expire", int64(i))
 		x.N = fmt.Sprintf("ExpireTx(#%d)", i)
 		ev = append(ev, x)
-		for v := 0; v < 4; v++ {
+		for v := 0; v < 5; v++ {
+			if v == 4 && c.tx[i].peer != 0 {
+				continue // A2 shares the address of peer A only
+			}
 			y := seqx.Ev("Rsp", int64(i), int64(v))
-			y.N = fmt.Sprintf("Rsp(#%d,%s)", i, []string{"ok", "SEID 0", "wrong peer", "unknown seq"}[v])
+			y.N = fmt.Sprintf("Rsp(#%d,%s)", i, []string{"ok", "SEID 0", "wrong peer", "unknown seq", "right host, other port"}[v])
 			ev = append(ev, y)
 		}
 	}
@@ -233,6 +237,8 @@ func (c *c09) Apply(e seqx.Event) seqx.StepResult {
 		switch v {
 		case 1:
 			seid = 0
+		case 4:
+			from = PeerA2 // same sequence number and IP address, another UDP port: a different PFCP entity
 		case 2:
 			from = 2 // peer C: same sequence number, other address
 		case 3:
@@ -253,9 +259,9 @@ func (c *c09) Apply(e seqx.Event) seqx.StepResult {
 		}
 		matches := !t.retired && (v == 0 || v == 1)
 		if !matches {
-			j.Tag([]string{"duplicate-response", "", "wrong-peer-response", "unknown-seq-response"}[v])
+			j.Tag([]string{"duplicate-response", "", "wrong-peer-response", "unknown-seq-response", "other-port-response"}[v])
 			if c.state() != s0 || len(o.Calls) != 0 {
-				j.Fail("unmatched-response-has-effect:"+[]string{"duplicate", "", "wrong-peer", "unknown-seq"}[v], "a response matching no outstanding request (%s) changed state: calls %v", e, o.Calls)
+				j.Fail("unmatched-response-has-effect:"+[]string{"duplicate", "", "wrong-peer", "unknown-seq", "other-port"}[v], "a response matching no outstanding request (%s) changed state: calls %v", e, o.Calls)
 			}
 			break
 		}
@@ -320,7 +326,7 @@ func RunC09(tier string) {
 			depth, done = spec.MaxDepth, st.DepthDone
 		}
 	}
-	seqx.Finish(run, total, smp, fmt.Sprintf("MaxRetrans %v x transmit counter at %v; 2 peers with one session each, <=3 outstanding requests; reports, timer expiries (incl. stale), matching / SEID-0 / wrong-peer / unknown-sequence / duplicated responses; all interleavings to depth %d (last scenario completed %d)", mrs, positions(poss), depth, done))
+	seqx.Finish(run, total, smp, fmt.Sprintf("MaxRetrans %v x transmit counter at %v; 2 peers with one session each, <=3 outstanding requests; reports, timer expiries (incl. stale), matching / SEID-0 / wrong-peer / other-port / unknown-sequence / duplicated responses; all interleavings to depth %d (last scenario completed %d)", mrs, positions(poss), depth, done))
 	run.Assumption("timer expiry is delivered as an event through NotifyTransTimeout with the real timer stopped")
 	run.Assumption("the transmit counter is positioned by the in-package harness; positions are the 32-bit values the property names")
 	run.Finish()
